@@ -639,111 +639,130 @@ func checkConditionalChanges(c *Ctx) {
 
 // checkNameIdentity is R02i.
 func checkNameIdentity(c *Ctx) {
-	fi := c.Func("R02i", pSqlx, "", "ChecksDiff")
-	if fi == nil {
+	root := c.Func("R02i", pSqlx, "", "ChecksDiff")
+	if root == nil {
 		return
 	}
-	info := fi.Info()
-	// the comparison parameter
-	var cmp types.Object
-	for _, fld := range fi.Decl.Type.Params.List {
-		if _, ok := info.TypeOf(fld.Type).Underlying().(*types.Signature); ok && len(fld.Names) == 1 {
-			cmp = info.ObjectOf(fld.Names[0])
+	// ChecksDiff and the package-local functions it calls (the matcher may be a named helper)
+	scope := []*FuncInfo{root}
+	for _, call := range callsIn(root.Decl.Body, true) {
+		if fn := calleeOf(root.Info(), call); fn != nil && fn.Pkg() != nil && fn.Pkg().Path() == pSqlx {
+			if cf := c.FuncInfoOf(fn); cf != nil && cf.Decl.Body != nil && cf != root {
+				scope = append(scope, cf)
+			}
 		}
-	}
-	if cmp == nil {
-		c.Unresolved("R02i", "the comparison parameter of sqlx.ChecksDiff")
-		return
-	}
-	isNameNonEmpty := func(e ast.Expr, op token.Token) bool {
-		be, ok := ast.Unparen(e).(*ast.BinaryExpr)
-		if !ok || be.Op != op {
-			return false
-		}
-		x, y := be.X, be.Y
-		if s, ok := stringConst(info, x); ok && s == "" {
-			x, y = y, x
-		}
-		s, ok := stringConst(info, y)
-		return ok && s == "" && isField(info, x, pSchema, "Check", "Name")
-	}
-	var flat func(e ast.Expr, op token.Token) []ast.Expr
-	flat = func(e ast.Expr, op token.Token) []ast.Expr {
-		e = ast.Unparen(e)
-		if be, ok := e.(*ast.BinaryExpr); ok && be.Op == op {
-			return append(flat(be.X, op), flat(be.Y, op)...)
-		}
-		return []ast.Expr{e}
 	}
 	n := 0
-	ast.Inspect(fi.Decl.Body, func(m ast.Node) bool {
-		fl, ok := m.(*ast.FuncLit)
-		if !ok {
-			return true
-		}
-		// innermost literals that call the comparison parameter and test a name
-		callsCmp, nested := false, false
-		ast.Inspect(fl.Body, func(k ast.Node) bool {
-			if _, ok := k.(*ast.FuncLit); ok {
-				nested = true
+	for _, fi := range scope {
+		info := fi.Info()
+		isCmpCall := func(k ast.Node) types.Object {
+			call, ok := k.(*ast.CallExpr)
+			if !ok || len(call.Args) != 2 {
+				return nil
 			}
-			if call, ok := k.(*ast.CallExpr); ok {
-				if id, ok := call.Fun.(*ast.Ident); ok && info.ObjectOf(id) == cmp {
-					callsCmp = true
+			id, ok := call.Fun.(*ast.Ident)
+			if !ok {
+				return nil
+			}
+			obj := info.ObjectOf(id)
+			if _, isVar := obj.(*types.Var); !isVar {
+				return nil
+			}
+			sig, ok := obj.Type().Underlying().(*types.Signature)
+			if !ok || sig.Params().Len() != 2 || !typeIs(derefType(sig.Params().At(0).Type()), pSchema, "Check") {
+				return nil
+			}
+			return obj
+		}
+		isNameTest := func(e ast.Expr, op token.Token) bool {
+			be, ok := ast.Unparen(e).(*ast.BinaryExpr)
+			if !ok || be.Op != op {
+				return false
+			}
+			x, y := be.X, be.Y
+			if s, ok := stringConst(info, x); ok && s == "" {
+				x, y = y, x
+			}
+			s, ok := stringConst(info, y)
+			return ok && s == "" && isField(info, x, pSchema, "Check", "Name")
+		}
+		var flat func(e ast.Expr, op token.Token) []ast.Expr
+		flat = func(e ast.Expr, op token.Token) []ast.Expr {
+			e = ast.Unparen(e)
+			if be, ok := e.(*ast.BinaryExpr); ok && be.Op == op {
+				return append(flat(be.X, op), flat(be.Y, op)...)
+			}
+			return []ast.Expr{e}
+		}
+		ast.Inspect(fi.Decl.Body, func(m ast.Node) bool {
+			fl, ok := m.(*ast.FuncLit)
+			if !ok {
+				return true
+			}
+			// a matcher: an innermost literal that calls the comparison function and compares two constraint names
+			var cmp types.Object
+			nested, namesCompared := false, false
+			ast.Inspect(fl.Body, func(k ast.Node) bool {
+				if inner, ok := k.(*ast.FuncLit); ok && inner != fl {
+					nested = true
 				}
-			}
-			return true
-		})
-		if !callsCmp || nested {
-			return true
-		}
-		n++
-		f := newFlow(info, fl.Body)
-		target := func(k ast.Node) bool {
-			found := false
-			walkShallow(k, func(x ast.Node) bool {
-				if call, ok := x.(*ast.CallExpr); ok {
-					if id, ok := call.Fun.(*ast.Ident); ok && info.ObjectOf(id) == cmp {
-						found = true
-					}
+				if o := isCmpCall(k); o != nil {
+					cmp = o
+				}
+				if be, ok := k.(*ast.BinaryExpr); ok && be.Op == token.EQL && isField(info, be.X, pSchema, "Check", "Name") && isField(info, be.Y, pSchema, "Check", "Name") {
+					namesCompared = true
 				}
 				return true
 			})
-			return found
-		}
-		// an edge is closed when taking it proves that one of the names is empty
-		edgeStop := func(b *cfg.Block, si int) bool {
-			cond, _, _ := condOf(b)
-			if cond == nil || len(b.Succs) != 2 {
-				return false
+			if cmp == nil || nested || !namesCompared {
+				return true
 			}
-			if si == 1 { // false edge of a conjunction of `name != ""`
-				for _, cj := range flat(cond, token.LAND) {
-					if !isNameNonEmpty(cj, token.NEQ) {
+			n++
+			c.funcs[fi.Name] = true
+			f := newFlow(info, fl.Body)
+			target := func(k ast.Node) bool {
+				found := false
+				walkShallow(k, func(x ast.Node) bool {
+					if o := isCmpCall(x); o != nil && o == cmp {
+						found = true
+					}
+					return true
+				})
+				return found
+			}
+			// an edge is closed when taking it proves that one of the names is empty
+			edgeStop := func(b *cfg.Block, si int) bool {
+				cond, _, _ := condOf(b)
+				if cond == nil || len(b.Succs) != 2 {
+					return false
+				}
+				if si == 1 { // false edge of a conjunction of `name != ""`
+					for _, cj := range flat(cond, token.LAND) {
+						if !isNameTest(cj, token.NEQ) {
+							return false
+						}
+					}
+					return true
+				}
+				// true edge of a disjunction of `name == ""`
+				for _, dj := range flat(cond, token.LOR) {
+					if !isNameTest(dj, token.EQL) {
 						return false
 					}
 				}
 				return true
 			}
-			// true edge of a disjunction of `name == ""`
-			for _, dj := range flat(cond, token.LOR) {
-				if !isNameNonEmpty(dj, token.EQL) {
-					return false
-				}
+			at, reached := f.reachEx([]point{f.entry()}, nil, target, edgeStop)
+			pos := fl.Pos()
+			if at != nil {
+				pos = at.Pos()
 			}
+			c.Check("R02i", fi.Name+"$matcher"+itoa(n)+"|expression fallback only when a name is empty", pos, !reached, "the constraint matcher in %s reaches the expression comparison on a path where both constraint names may be non-empty: two differently named constraints with the same expression are treated as one (a rename, or a second constraint with an equal expression, produces no change)", fi.Name)
 			return true
-		}
-		// reachability with those edges opened only: the call must NOT be reachable when they are removed
-		at, reached := f.reachEx([]point{f.entry()}, nil, target, edgeStop)
-		pos := fl.Pos()
-		if at != nil {
-			pos = at.Pos()
-		}
-		c.Check("R02i", "sqlx.ChecksDiff$matcher"+itoa(n)+"|expression fallback only when a name is empty", pos, !reached, "the matcher in ChecksDiff reaches the expression comparison on a path where both constraint names may be non-empty: two differently named constraints with the same expression are treated as one (a rename, or a second constraint with an equal expression, produces no change)")
-		return true
-	})
+		})
+	}
 	if n == 0 {
-		c.Unresolved("R02i", "the matcher closure of sqlx.ChecksDiff (a func literal calling the comparison parameter)")
+		c.Unresolved("R02i", "the constraint matcher used by sqlx.ChecksDiff (a func literal that compares two constraint names and calls the comparison function)")
 	}
 }
 
